@@ -390,7 +390,7 @@ class StmtsMixin:
                     bx = base['X']
                     while bx['_'] == 'ParenExpr': bx = bx['X']
                     if bx['_'] == 'SelectorExpr' and bx.get('sel') is not None and bx['sel'].get('kind') == 'field':
-                        acc_fields.add((bx['X'].get('t'), bx['Sel']['Name']))      # the slice is held in a field
+                        acc_fields.add((bx['X'].get('t'), bx['Sel']['Name'], 'elems'))      # the slice is held in a field: its array changes, its header does not
                     if xk in ('slice', 'ptr'): through_ref = True
                 if base['_'] == 'StarExpr':
                     through_ref = True
@@ -542,7 +542,12 @@ class StmtsMixin:
                 for w in self.lay.wf(nv, tid): h.assume(w)
                 self.bound_value(h, nv, tid)
                 h.env[oid] = nv
-        for (t, fname) in fs:
+        whole = {(e[0], e[1]) for e in fs if len(e) == 2}
+        for e in fs:
+            t, fname = e[0], e[1]
+            elems_only = len(e) == 3
+            if elems_only and (t, fname) in whole:
+                continue
             if t == 'elems':
                 continue
             tid = t
@@ -552,6 +557,8 @@ class StmtsMixin:
             for f in self.tt.fields(tid):
                 if f['n'] == fname:
                     for i, srt in enumerate(self.lay.sorts(f['t'])):
+                        if elems_only and srt.kind() != z3.Z3_ARRAY_SORT:
+                            continue               # offset, length, capacity, nil flag of the slice stay
                         h.heap[(tn, fname, i)] = fresh('hvH_%s' % fname, z3.ArraySort(I, srt))
                         h.meta['afacts'] = tuple(h.meta.get('afacts', ())) + tuple(self.bound_heap_comp(h, h.heap[(tn, fname, i)], tn, fname, i))
         for c in calls:
